@@ -191,6 +191,173 @@ def _const_truth(desc):
     return None
 
 
+# ----------------------------------------------------------------------------------------
+# std combinators that take a closure and return bool: `opt.is_none_or(|x| ..)` is `match opt { None => true, Some(x) => .. }`
+# spelled differently.  (value on the empty variant, empty variant, variant whose payload the closure receives)
+COMB = {
+    "Option::<T>::is_some_and": (False, "None", "Some"),
+    "Option::<T>::is_none_or": (True, "None", "Some"),
+    "Result::<T, E>::is_ok_and": (False, "Err", "Ok"),
+    "Result::<T, E>::is_err_and": (False, "Ok", "Err"),
+}
+
+
+def _comb_of(B, sb, restrict):
+    """(table key, call block, required truth of the call's result for the edge) if sb switches on a COMB call's result"""
+    e = B.cond(sb)
+    neg = False
+    while e[0] == "not":
+        e = e[1]
+        neg = not neg
+    callee = blk = None
+    if e[0] == "call":
+        callee, blk = e[1], e[3]
+    elif e[0] == "op" and e[1]["k"] in ("copy", "move"):
+        org = B.origins(e[1], restrict=restrict)
+        if len(org) == 1:
+            o = next(iter(org))
+            if o[0] == "call" and not o[3]:
+                callee, blk = o[1], o[2]
+    if callee is None:
+        return None
+    for k in COMB:
+        if q.base_name(callee).endswith(k) or callee.endswith(k):
+            return k, blk, neg
+    return None
+
+
+def _edge_truth(B, sb, label, neg):
+    t = B.blocks[sb]["term"]
+    if label == "otherwise":
+        val = not any(v == 1 for v, _ in t["targets"]) if all(v == 0 for v, _ in t["targets"]) else None
+    else:
+        val = bool(label)
+    if val is None:
+        return None
+    return (not val) if neg else val
+
+
+def _call_atom(B, callee, args, tv, restrict=None):
+    D = lambda x: describe_origin(B, x, restrict)
+    name = q.base_name(callee)
+    a = [D(x) for x in args]
+    short = name.rsplit("::", 1)[-1]
+    if short in ("eq", "ne") and len(a) == 2:
+        if short == "ne" and tv is not None:
+            tv = not tv
+        return ("eq(%s, %s)" % tuple(a), tv)
+    return ("call %s(%s)" % (name, ", ".join(a)), tv)
+
+
+def comb_alternatives(F, B, key, blk, tv, restrict):
+    """atom lists under which the combinator call at blk yields tv; None when the closure cannot be read"""
+    if tv is None:
+        return None
+    t = B.blocks[blk]["term"]
+    if len(t["args"]) != 2:
+        return None
+    recv, clo = t["args"]
+    empty_val, empty_var, full_var = COMB[key]
+    rdesc = describe_origin(B, recv, restrict)
+    cids = [(o[1], o[2]) for o in B.origins(clo, restrict=restrict) if o[0] == "agg" and o[1] in F.fns]
+    if len(cids) != 1:
+        return None
+    cid, ablk = cids[0]
+    cfn = F.fns[cid]
+    if cfn["kind"] != "Closure":
+        return None
+    Bc = mir.Body(cfn, F)
+    subst = {}
+    if len(Bc.locals) > 2:
+        subst["param:" + (Bc.locals[2].get("name") or "2")] = "%s.@%s.0" % (rdesc, full_var)
+    for s in B.blocks[ablk]["stmts"]:
+        if s["k"] == "assign" and s["rv"]["k"] == "agg" and s["rv"].get("def") == cid:
+            for i, op in enumerate(s["rv"]["ops"]):
+                if i in Bc.upvar:
+                    subst["param:" + Bc.upvar[i]] = describe_origin(B, op, restrict)
+    alts = []
+    if empty_val == tv:
+        alts.append([("discr(%s)" % rdesc, empty_var)])
+    try:
+        crow = []
+        for pth in enumerate_paths(Bc, allow_loops=True):
+            crow.append((path_atoms(Bc, F, pth), returned_variant(Bc, pth)))
+    except TooManyPaths:
+        return None
+    for catoms, cres in crow:
+        extra = None
+        if isinstance(cres, tuple) and cres[0] == "use":
+            o = cres[1]
+            if o["k"] == "const" and o.get("val") is not None and not isinstance(o.get("val"), dict):
+                if bool(o["val"]) != tv:
+                    continue
+                extra = []
+            else:
+                extra = [("val(%s)" % describe_origin(Bc, o), tv)]
+        elif isinstance(cres, tuple) and cres[0] == "call":
+            ct = Bc.blocks[cres[2]]["term"]
+            w, r = mir.callee_of(ct)
+            extra = [_call_atom(Bc, r or w, ct["args"], tv)]
+        else:
+            return None
+        new, feasible = [("discr(%s)" % rdesc, full_var)], True
+        for d, v in catoms + extra:
+            for k in sorted(subst, key=len, reverse=True):
+                d = _subst_param(d, k, subst[k])
+            c = _const_truth(d)
+            if c is not None:
+                if v is not None and v != c:
+                    feasible = False
+                    break
+                continue
+            new.append((d, v))
+        if feasible:
+            alts.append(new)
+    return alts
+
+
+def _prune(atoms):
+    """drop repeated atoms; None if two atoms over the same call-free description disagree (infeasible combination)"""
+    seen, out = {}, []
+    for d, v in atoms:
+        if "call" not in d and d in seen:
+            if seen[d] != v:
+                return None
+            continue
+        seen.setdefault(d, v)
+        out.append((d, v))
+    return out
+
+
+def path_atom_alternatives(B, F, path):
+    """like path_atoms, but a branch on the result of a closure-taking std combinator is replaced by the cases under which the
+    combinator has that result; returns a list of atom lists (their disjunction describes the path)"""
+    alts = [([], False)]
+    prefix = []
+    for b, lab in path:
+        prefix.append(b)
+        t = B.blocks[b]["term"]
+        if t["k"] != "switch" or (t.get("exp") and "Await" in t["exp"]):
+            continue
+        c = _comb_of(B, b, list(prefix))
+        ex = None
+        if c is not None:
+            ex = comb_alternatives(F, B, c[0], c[1], _edge_truth(B, b, lab, c[2]), list(prefix))
+        if ex is None:
+            a = atom(B, F, b, lab, restrict=list(prefix))
+            alts = [(x + [a], e) for x, e in alts]
+        else:
+            alts = [(x + y, True) for x, e in alts for y in ex]
+    out = []
+    for x, expanded in alts:
+        if expanded:
+            x = _prune(x)
+            if x is None:
+                continue
+        out.append(x)
+    return out
+
+
 def decision_rows(F, fid, depth=2, _memo=None):
     """[(atoms, result)] over all acyclic paths of fid; a path that returns the result of a workspace helper is expanded with the
     helper's rows, helper parameters substituted by the caller's argument descriptions and constant-bound atoms evaluated
@@ -203,8 +370,7 @@ def decision_rows(F, fid, depth=2, _memo=None):
         return []
     B = mir.Body(fn, F)
     rows = []
-    for p in enumerate_paths(B, allow_loops=True):
-        atoms = path_atoms(B, F, p)
+    for p, atoms in ((p, a) for p in enumerate_paths(B, allow_loops=True) for a in path_atom_alternatives(B, F, p)):
         ret = returned_variant(B, p)
         if isinstance(ret, tuple) and ret[0] == "call" and depth > 0:
             t = B.blocks[ret[2]]["term"]
